@@ -451,6 +451,8 @@ void getOffsetAndCount(const MultiTag &tag, const DataArray &array, const vector
 
     vector<vector<double>> start_positions(dimension_count);
     vector<vector<double>> end_positions(dimension_count);
+    // a position without extent, or with an extent of zero, tags the single element at or after it
+    vector<vector<bool>> point_positions(dimension_count);
     vector<double> offset, extent;
     for (size_t idx = 0; idx < indices.size(); ++idx) {
         temp_offset[0] = indices[idx];
@@ -476,10 +478,12 @@ void getOffsetAndCount(const MultiTag &tag, const DataArray &array, const vector
             if (idx == 0) {
                 start_positions[dim_index] = vector<double>(indices.size());
                 end_positions[dim_index] = vector<double>(indices.size());
+                point_positions[dim_index] = vector<bool>(indices.size());
             }
             start_positions[dim_index][idx] = offset[dim_index];
             end_positions[dim_index][idx] = dim_index < specified ? offset[dim_index] + extent[dim_index]
                                                                   : extent[dim_index];
+            point_positions[dim_index][idx] = dim_index >= specified || extent[dim_index] == 0.;
         }
     }
 
@@ -503,7 +507,7 @@ void getOffsetAndCount(const MultiTag &tag, const DataArray &array, const vector
                 ndsize_t count =  (*opt_range).second - (*opt_range).first;
                 data_count[dim_index] += count;
             } else {
-                if (end_positions[dim_index][i] == start_positions[dim_index][i]) {
+                if (point_positions[dim_index][i]) {
                     optional<ndsize_t> ofst = positionToIndex(end_positions[dim_index][i], units[dim_index], PositionMatch::GreaterOrEqual, dimensions[dim_index]);  
                     if (!ofst) {
                         throw nix::OutOfBounds("util::offsetAndCount:An invalid range was encountered!");
